@@ -567,101 +567,33 @@ pub fn run(reg: &dyn Registry, ctx: &Ctx) -> Outcome {
     // of A's operation is a scheduling point; both instances must return what they return one after
     // the other.
     {
-        use std::sync::{Arc, Mutex};
-        let obs_of = |g: &mut Box<dyn Gen>, ops: &[Op]| -> Vec<String> { ops.iter().map(|o| apply(g, o).to_json().to_string()).collect() };
-        let a_variants: Vec<(u8, Vec<Op>, usize)> = vec![
-            // (rounds, ops of A, number of reading indices of A's history to use as scheduling points)
-            (1, vec![Op::U64, Op::U32], 2 * jitter_env::readings_per_word(1)),
-            (2, vec![Op::U32, Op::U32, Op::Fill(9)], 3 * jitter_env::readings_per_word(2)),
-            (3, vec![Op::TimerStats(true), Op::U64], 4 + jitter_env::readings_per_word(3)),
-        ];
-        #[derive(Clone)]
-        enum B {
-            Jitter(u8, Vec<Op>),
-            Seeded(&'static str),
-        }
-        let b_variants = vec![B::Jitter(1, vec![Op::U64]), B::Jitter(2, vec![Op::U32, Op::U32]), B::Jitter(1, vec![Op::TimerStats(false), Op::U64]), B::Seeded("Hc128Rng"), B::Seeded("Isaac64Rng"), B::Seeded("Xoshiro256PlusPlus")];
-        let mk_b = |b: &B| -> (Box<dyn Gen>, Vec<Op>) {
-            match b {
-                B::Jitter(rounds, ops) => {
-                    let mut g = reg.jitter(TimerScript::new(jitter_env::raw_readings(ctx.seed ^ 0x19B2, 400)));
-                    g.jitter().unwrap().set_rounds(*rounds);
-                    (g, ops.clone())
-                }
-                B::Seeded(name) => {
-                    let ty = reg.get(name).unwrap();
-                    (ty.from_seed(&dense(ty, 9)), vec![Op::U64, Op::Fill(5)])
-                }
-            }
-        };
         let mut overlaps = 0u64;
-        'outer: for (rounds, a_ops, points) in &a_variants {
-            let a_readings = jitter_env::raw_readings(ctx.seed ^ 0x19A1 ^ *rounds as u64, 600);
-            // one after the other
-            let want_a = {
-                let mut a = reg.jitter(TimerScript::new(a_readings.clone()));
-                a.jitter().unwrap().set_rounds(*rounds);
-                obs_of(&mut a, a_ops)
-            };
-            for b in &b_variants {
-                let want_b = {
-                    let (mut g, ops) = mk_b(b);
-                    obs_of(&mut g, &ops)
-                };
+        'outer: for (ai, (rounds, a_ops, points)) in overlap_a_variants().iter().enumerate() {
+            for bi in 0..OVERLAP_B_VARIANTS {
                 for k in 0..*points {
                     for other_thread in [false, true] {
-                        let script = TimerScript::new(a_readings.clone());
-                        let (bg, b_ops) = mk_b(b);
-                        let slot: Arc<Mutex<(Option<Box<dyn Gen>>, Vec<String>)>> = Arc::new(Mutex::new((Some(bg), Vec::new())));
-                        let slot2 = slot.clone();
-                        let b_ops2 = b_ops.clone();
-                        script.hook_at(
-                            k,
-                            Box::new(move || {
-                                let work = move || {
-                                    let mut s = slot2.lock().unwrap();
-                                    let mut g = s.0.take().unwrap();
-                                    s.1 = b_ops2.iter().map(|o| apply(&mut g, o).to_json().to_string()).collect();
-                                    s.0 = Some(g);
-                                };
-                                if other_thread {
-                                    std::thread::scope(|sc| {
-                                        sc.spawn(work);
-                                    });
-                                } else {
-                                    work();
-                                }
-                            }),
-                        );
-                        let mut a = reg.jitter(script);
-                        a.jitter().unwrap().set_rounds(*rounds);
-                        let got_a = obs_of(&mut a, a_ops);
-                        let got_b = slot.lock().unwrap().1.clone();
+                        let o = overlap_run(reg, ctx.seed, ai, bi, k, other_thread);
                         overlaps += 1;
-                        if got_b.is_empty() {
+                        if o.got_b.is_empty() {
                             // the history of A did not reach reading k: not a scheduling point of this history
                             continue;
                         }
-                        if got_a != want_a || got_b != want_b {
-                            let b_desc = match b {
-                                B::Jitter(r, ops) => format!("a JitterRng (rounds {}) running {}", r, crate::ops::ops_short(ops)),
-                                B::Seeded(n) => format!("a {} running u64,fill5", n),
-                            };
+                        if o.got_a != o.want_a || o.got_b != o.want_b {
                             ctx.violation(
                                 "C19:JitterRng:overlapping-operations",
                                 &format!(
                                     "JitterRng (rounds {}) running {} while {} {} inside its timer read #{}: it returns {:?} (one after the other: {:?}), the other instance {:?} (one after the other: {:?})",
                                     rounds,
                                     crate::ops::ops_short(a_ops),
-                                    b_desc,
+                                    o.b_desc,
                                     if other_thread { "on another thread" } else { "on the same thread" },
                                     k,
-                                    got_a,
-                                    want_a,
-                                    got_b,
-                                    want_b
+                                    o.got_a,
+                                    o.want_a,
+                                    o.got_b,
+                                    o.want_b
                                 ),
-                                json!({"kind":"note","rounds":rounds,"a_ops":ops_json(a_ops),"other":b_desc,"timer_read":k,"other_thread":other_thread}),
+                                json!({"kind":"overlap","seed":ctx.seed,"a_variant":ai,"b_variant":bi,"timer_read":k,"other_thread":other_thread,"a_ops":ops_json(a_ops),"other":o.b_desc}),
                             );
                             break 'outer;
                         }
@@ -682,6 +614,89 @@ pub fn run(reg: &dyn Registry, ctx: &Ctx) -> Outcome {
     }
     ctx.set_exhaustive(true);
     outcome()
+}
+
+/// (rounds, ops of A, number of reading indices of A's history used as scheduling points)
+pub fn overlap_a_variants() -> Vec<(u8, Vec<Op>, usize)> {
+    vec![
+        (1, vec![Op::U64, Op::U32], 2 * jitter_env::readings_per_word(1)),
+        (2, vec![Op::U32, Op::U32, Op::Fill(9)], 3 * jitter_env::readings_per_word(2)),
+        (3, vec![Op::TimerStats(true), Op::U64], 4 + jitter_env::readings_per_word(3)),
+    ]
+}
+pub const OVERLAP_B_VARIANTS: usize = 6;
+
+pub struct Overlap {
+    pub got_a: Vec<String>,
+    pub got_b: Vec<String>,
+    pub want_a: Vec<String>,
+    pub want_b: Vec<String>,
+    pub b_desc: String,
+}
+
+/// One overlapping execution: instance B (variant `bi`) runs its whole history inside timer read #k of
+/// instance A (variant `ai`), on the same or on another thread; plus both histories one after the other.
+pub fn overlap_run(reg: &dyn Registry, seed: u64, ai: usize, bi: usize, k: usize, other_thread: bool) -> Overlap {
+    use std::sync::{Arc, Mutex};
+    let obs_of = |g: &mut Box<dyn Gen>, ops: &[Op]| -> Vec<String> { ops.iter().map(|o| apply(g, o).to_json().to_string()).collect() };
+    let (rounds, a_ops, _) = overlap_a_variants()[ai].clone();
+    let mk_b = || -> (Box<dyn Gen>, Vec<Op>, String) {
+        let jit = |r: u8, ops: Vec<Op>| {
+            let mut g = reg.jitter(TimerScript::new(jitter_env::raw_readings(seed ^ 0x19B2, 400)));
+            g.jitter().unwrap().set_rounds(r);
+            let d = format!("a JitterRng (rounds {}) running {}", r, crate::ops::ops_short(&ops));
+            (g, ops, d)
+        };
+        let seeded = |name: &str| {
+            let ty = reg.get(name).unwrap();
+            (ty.from_seed(&alphabet::bg_bytes(seed, 0x1900 + 9, ty.info().seed_len)), vec![Op::U64, Op::Fill(5)], format!("a {} running u64,fill5", name))
+        };
+        match bi {
+            0 => jit(1, vec![Op::U64]),
+            1 => jit(2, vec![Op::U32, Op::U32]),
+            2 => jit(1, vec![Op::TimerStats(false), Op::U64]),
+            3 => seeded("Hc128Rng"),
+            4 => seeded("Isaac64Rng"),
+            _ => seeded("Xoshiro256PlusPlus"),
+        }
+    };
+    let a_readings = jitter_env::raw_readings(seed ^ 0x19A1 ^ rounds as u64, 600);
+    let want_a = {
+        let mut a = reg.jitter(TimerScript::new(a_readings.clone()));
+        a.jitter().unwrap().set_rounds(rounds);
+        obs_of(&mut a, &a_ops)
+    };
+    let (want_b, b_desc) = {
+        let (mut g, ops, d) = mk_b();
+        (obs_of(&mut g, &ops), d)
+    };
+    let script = TimerScript::new(a_readings);
+    let (bg, b_ops, _) = mk_b();
+    let slot: Arc<Mutex<(Option<Box<dyn Gen>>, Vec<String>)>> = Arc::new(Mutex::new((Some(bg), Vec::new())));
+    let slot2 = slot.clone();
+    script.hook_at(
+        k,
+        Box::new(move || {
+            let work = move || {
+                let mut s = slot2.lock().unwrap();
+                let mut g = s.0.take().unwrap();
+                s.1 = b_ops.iter().map(|o| apply(&mut g, o).to_json().to_string()).collect();
+                s.0 = Some(g);
+            };
+            if other_thread {
+                std::thread::scope(|sc| {
+                    sc.spawn(work);
+                });
+            } else {
+                work();
+            }
+        }),
+    );
+    let mut a = reg.jitter(script);
+    a.jitter().unwrap().set_rounds(rounds);
+    let got_a = obs_of(&mut a, &a_ops);
+    let got_b = slot.lock().unwrap().1.clone();
+    Overlap { got_a, got_b, want_a, want_b, b_desc }
 }
 
 fn outcome() -> Outcome {
